@@ -135,6 +135,9 @@ type world struct {
 	prod   *producer
 	bpKeys []lcrypto.PrivKey // block producers: every block is signed by one of them (round robin by height)
 	bpIDs  []string
+	// a recovery was seen to come up on a state root without completion marker (lagAll): the lag points that
+	// remove state data are skipped from then on
+	noMarkerGuard bool
 }
 
 func newWorld(root string) *world {
